@@ -65,6 +65,18 @@ def reviewedRun : List Reviewed := [
 
 def methodOf (s : RunSite) : Option Method := methods.find? fun m => m.pkg == s.pkg && m.recv == s.recv && m.argsType == s.argsType
 
+/-- reviewed sites of the ante package (typed inventory `Gen.C20Run.anteSites`).  "Runs under the deferred Recover of
+NewAnteHandler" is NOT an argument: a recovered panic reaches the client as ErrPanic and violates the property. -/
+def reviewedAnte : List Reviewed := [
+  { pkg := "ante", meth := "getTxPriority", kind := "div", expr := "c.Amount.QuoRaw(gas)",
+    why := "gas = int64(feeTx.GetGas()); the SDK's DeductFeeDecorator returns ErrInvalidGasLimit for gas = 0 (height > 0, not simulating) before it calls the fee checker, and SetUpContextDecorator refuses gas > Block.MaxGas (30 000 000) so the int64 conversion cannot wrap to 0; modelled exactly as Outcome.panic in Gen.C20.checkTxFee and excluded by checktx_no_panic_in_range; the raw-transaction stream sends gas 0 / 2^63 / 2^64-1 through the real CheckTx" },
+  { pkg := "ante", meth := "ConsumeMultisignatureVerificationGas", kind := "index", expr := "sig.Signatures[sigIndex]",
+    needs := ["len(sig.Signatures) != sig.BitArray.NumTrueBitsBefore(size)"],
+    why := "sigIndex counts the set bits seen so far (it is incremented once per set bit, after the access), so it is below the number of set bits among the first `size`, which the dominating early return equates with len(sig.Signatures); the raw-transaction stream sends every combination of bit-array size 0..64 and 0..3 signatures for a 2-key multisig account" }
+]
+
+def anteSiteOk (s : RunSite) : Bool := s.guarded || reviewedAnte.any (·.covers s)
+
 /-- the requirement of a site is discharged by its method's own argument validation -/
 def reqDischarged (s : RunSite) (r : Req) : Bool :=
   match methodOf s, findArgs argsTypes s.argsType with
